@@ -135,6 +135,9 @@ def rule_thin_ctor(ctx, rep):
 
 
 def run(ctx, rep):
+    # the thin handle stays an owner of its block on every path, unwinding out of lent callbacks included
+    balance.rule_bal(ctx, rep)
+    balance.rule_unw(ctx, rep)
     for tag, F, E in ctx.each():
         A = balance.analysis(tag, F, E)
         PROT = prot_path(F)
